@@ -928,11 +928,6 @@ Proof.
   split; [exact Hu|]. exists dv. split; [exact Hgd | exact Hg].
 Qed.
 
-(* translated from the current source: get_file() precedes set_creds() in the four creating methods,
-   as the model assumes (create_then_lookup / QCreate resolve the parent with root's capabilities) *)
-Lemma descriptor_before_creds : shape_descriptor_before_set_creds = true.
-Proof. vm_compute. reflexivity. Qed.
-
 (* non-vacuity of the hypotheses used above *)
 Definition wit_host : host := mkHost [(10, mkInode (KDir [] 10 false) 511 0 0 [])] 11 [].
 Definition wit_cfg : cfg := mkCfg true false false false false true 2 true true.
@@ -947,8 +942,6 @@ Proof.
   - split; [|discriminate]. eexists; eexists; eexists. split; [vm_compute; reflexivity | reflexivity].
 Qed.
 
-Lemma create_flag_use : shape_create_flag_use = true.
-Proof. vm_compute. reflexivity. Qed.
 
 (* ---- setattr applies exactly the requested subset of the time stamps: the utimens step runs iff ATIME or MTIME
    is valid, on the handle's inode (or the inode itself), with set / now / omit per field as requested *)
